@@ -639,6 +639,23 @@ def constants_and_keywords(R, rng, tier):
                                 {'algebra': spec, 'constant': int(c), 'function': f.__name__, 'keys': ks, 'values': [float(x_) for x_ in v.values()], 'const_fn': True},
                                 f'def f(x): return {"x * c" if f is times else "c + x"} with c = np.{type(c).__name__}({int(c)}) (after functions with the constants {[int(q) for q in consts[:consts.index(c)]]} '
                                 f'were registered on the same algebra): f returns {want}, alg.register(f) returns {got} in Algebra({algs.describe(spec)})')
+        # parameter names that are prefixes of one another followed by hex digits (x, x1, xe): symbolic registration must keep the
+        # coefficients of the arguments apart
+        full = [oc.make_mv(alg, canon, [float(rng.randint(1, 5)) for _ in canon]) for _ in range(3)]
+        def f_names(x, x1, xe):
+            return x * x1 + (x | xe) - x1 * xe
+        for symbolic in ((True, False) if alg.d <= 2 else (False,)):        # (the symbolic route on full 4-D operands takes half a minute)
+            R.count('route=parameter-names'); R.case(('parameter-names', repr(spec), symbolic), True)
+            want = as_items(f_names(*full))
+            try:
+                got = as_items(alg.register(f_names, symbolic=symbolic)(*full))
+            except Exception:  # noqa
+                continue
+            if not same_items(want, got, exact=False):
+                R.violation({'clause': 'parameter-names', 'route': 'symbolic' if symbolic else 'register'},
+                            {'algebra': spec, 'symbolic': symbolic, 'const_fn': True},
+                            f'def f(x, x1, xe): return x * x1 + (x | xe) - x1 * xe registered with symbolic={symbolic} on full multivectors in Algebra({algs.describe(spec)}) '
+                            f'returns {got}, the plain function {want}')
         # keyword calls
         p = oc.make_mv(alg, ks[:2], [2.0, 5.0])
         def blend(x, rotor=1, onto=1):
